@@ -267,3 +267,7 @@ def run(tier, V):
                    'the message row is excluded; the window clause is checked only for buffers of simple content (printable, tabs, wide CJK, no RTL/zero-width) and single-window runs',
                    '^L does not change editor state other than forcing a full repaint']
     return cov, assumptions
+
+
+def REPLAY(w):
+    return run_case((build('asan'), w['index'], c17.Widths()))[:2]
